@@ -21,3 +21,15 @@ func init() {
 		}
 	}
 }
+
+func init() {
+	eng.Internal["dbg-depth"] = func(args []string) {
+		for _, a := range args[2:] {
+			n, _ := strconv.Atoi(a)
+			in := fmt.Sprintf("%s\x00%d\x00%s", args[0], n, args[1])
+			t0 := time.Now()
+			r := c01Depth(in)
+			fmt.Printf("n=%d time=%v outcome=%s\n", n, time.Since(t0), r.Outcome)
+		}
+	}
+}
